@@ -889,13 +889,17 @@ func (d *Pegnetd) ApplyTransactionBatchesInHolding(ctx context.Context, sqlTx *s
 
 			if currentHeight >= config.V20HeightActivation {
 				if err := txBatch.ValidatePegTx(int32(currentHeight)); err != nil {
-					d.Pegnet.SetTransactionHistoryExecuted(sqlTx, txBatch, -2)
+					if err := d.Pegnet.SetTransactionHistoryExecuted(sqlTx, txBatch, -2); err != nil {
+						return err // the status must not be lost: fail the block, it is retried
+					}
 					continue
 				}
 			}
 
 			if err := txBatch.Validate(int32(currentHeight)); err != nil {
-				d.Pegnet.SetTransactionHistoryExecuted(sqlTx, txBatch, -2)
+				if err := d.Pegnet.SetTransactionHistoryExecuted(sqlTx, txBatch, -2); err != nil {
+					return err
+				}
 				continue
 			}
 			isReplay, err := d.Pegnet.IsReplayTransaction(sqlTx, txBatch.Entry.Hash)
@@ -916,7 +920,9 @@ func (d *Pegnetd) ApplyTransactionBatchesInHolding(ctx context.Context, sqlTx *s
 			if err != nil { // Likely a db error
 				return err
 			} else if rejectCode < 0 { // Tx rejected
-				d.Pegnet.SetTransactionHistoryExecuted(sqlTx, txBatch, rejectCode)
+				if err := d.Pegnet.SetTransactionHistoryExecuted(sqlTx, txBatch, rejectCode); err != nil {
+					return err
+				}
 			} else if err == nil { // Tx accepted
 				if currentHeight < config.V20HeightActivation {
 					// If PegnetConversion limits are on, we process conversions to
@@ -1017,7 +1023,9 @@ func (d *Pegnetd) ApplyTransactionBlock(sqlTx *sql.Tx, eblock *factom.EBlock) er
 			err != pegnet.InsufficientBalanceErr { // Allowed Exception
 			return err
 		} else if err == pegnet.InsufficientBalanceErr {
-			d.Pegnet.SetTransactionHistoryExecuted(sqlTx, txBatch, -1)
+			if err := d.Pegnet.SetTransactionHistoryExecuted(sqlTx, txBatch, -1); err != nil {
+				return err
+			}
 		}
 	}
 	return nil
